@@ -15,13 +15,16 @@ def panosHttpGetBody (ρ : Role) (t : Txt) : Sess :=
   .roundTrip ρ t true ;;
   .ite .err "err != nil" (.ret .keep ["nil", "err"]) .skip ;;
   op "ReadAll" ["_"] ;; op "Close" ;;
-  .ite .not200 "resp.StatusCode != http.StatusOK" (.ret .err ["_", "_"]) .skip ;;
+  .ite .not200 "$Get.1.StatusCode != http.StatusOK" (.ret .err ["_", "_"]) .skip ;;
   .ret .keep ["_", "err"]
 def panosHttpGet (ρ : Role) (t : Txt) : Sess := .call "httpGet" ["_"] (panosHttpGetBody ρ t)
 
 def panosHttpPrefixGetLogBody (ρ : Role) (t : Txt) : Sess := panosHttpGet ρ t ;; .ret .keep ["_", "err"]
-def panosHttpPrefixGetLog (ρ : Role) (t : Txt) : Sess :=
-  .call "httpPrefixGetLog" ["_", "_"] (panosHttpPrefixGetLogBody ρ t)
+def panosHttpPrefixGetLog (ρ : Role) (t : Txt) (lits : List String := ["_", "_"]) : Sess :=
+  .call "httpPrefixGetLog" lits (panosHttpPrefixGetLogBody ρ t)
+/-- the constant request texts of LoadDevice / checkHA as the source passes them -/
+def panosHaLits : List String := ["type=op&cmd=<show><high-availability><state/></high-availability></show>", "_"]
+def panosConfigLits : List String := ["type=config&action=get&xpath=/config/devices", "_"]
 
 /-- `parseResponse`: error iff the body is not well-formed XML saying `status="success"`. -/
 def panosParseResponse : Sess :=
@@ -42,9 +45,9 @@ def panosCommitBody : Sess :=
   (panosDoCmd .save (.lit "commit") ;;
    .ite .err "err != nil" (.ret .keep ["err"]) .skip ;;
    .ite (.flag .noChanges)
-     "strings.Contains(msg, \"There are no changes to commit\") || strings.Contains(msg, \"The result of this commit would be the same\")"
+     "strings.Contains($doCmd.1, \"There are no changes to commit\") || strings.Contains($doCmd.1, \"The result of this commit would be the same\")"
      (.ret .nil ["nil"]) .skip ;;
-   .ite (.not (.flag .msgEmpty)) "msg != \"\"" (.ret .err ["_"]) .skip) ;;
+   .ite (.not (.flag .msgEmpty)) "$doCmd.1 != \"\"" (.ret .err ["_"]) .skip) ;;
   xmlUnmarshal ;;
   .ite .err "err != nil" (.ret .keep ["err"]) .skip ;;
   .loopFuel (
@@ -52,8 +55,8 @@ def panosCommitBody : Sess :=
     .ite .err "err != nil" (.ret .keep ["err"]) .skip ;;
     xmlUnmarshal ;;
     .ite .err "err != nil" (.ret .keep ["err"]) .skip ;;
-    .ite (.flag .pend) "s.Result == \"PEND\"" .cont
-      (.ite (.flag .jobOk) "s.Result == \"OK\"" (.ret .nil ["nil"]) (.ret .err ["_"])))
+    .ite (.flag .pend) "¬$new.Result != \"PEND\"" .cont
+      (.ite (.flag .jobOk) "¬$new.Result != \"OK\"" (.ret .nil ["nil"]) (.ret .err ["_"])))
 def panosCommit : Sess := .call "commit" [] panosCommitBody
 
 def panosApplyBody : Sess :=
@@ -89,15 +92,15 @@ def panosGetAPIKeyBody : Sess :=
 
 /-- `checkHA`: true (no error value) iff HA is off or this device is the active one -/
 def panosCheckHABody : Sess :=
-  panosHttpPrefixGetLog .login (.lit "show ha") ;;
+  panosHttpPrefixGetLog .login (.lit "show ha") panosHaLits ;;
   .ite .err "err != nil" (.ret .err ["false"]) .skip ;;
   panosParseResponse ;;
   .ite .err "err != nil" (.ret .err ["false"]) .skip ;;
   op "Unmarshal" ["_", "_"] ;;
   .ite .never "err != nil" (.ret .err ["false"]) .skip ;;
-  .ite (.flag .haActive) "ha.Enabled != \"yes\"" (.ret .nil ["true"]) .skip ;;
-  .ite .never "ha.Mode == \"Active-Passive\"" (.ret .none ["_"])
-    (.ite .never "ha.Mode == \"Active-Active\"" (.ret .none ["_"]) .skip) ;;
+  .ite (.flag .haActive) "$new.Enabled != \"yes\"" (.ret .nil ["true"]) .skip ;;
+  .ite .never "¬$new.Mode != \"Active-Passive\"" (.ret .none ["_"])
+    (.ite .never "¬$new.Mode != \"Active-Active\"" (.ret .none ["_"]) .skip) ;;
   .ret .err ["false"]
 
 /-- the function literal handed to TryReachableHTTPLogin -/
@@ -105,14 +108,14 @@ def panosLoginFunc : Sess :=
   .call "getAPIKey" ["_", "_", "_", "_"] panosGetAPIKeyBody ;;
   .ite .err "err != nil" (.ret .keep ["err"]) .skip ;;
   .call "checkHA" ["_"] panosCheckHABody ;;
-  .ite .err "!s.checkHA(logLogin)" (.ret .err ["_"]) .skip ;;
+  .ite .err "¬$r.checkHA($p3)" (.ret .err ["_"]) .skip ;;
   .ret .nil ["nil"]
 
 def panosLoadDevice : Sess :=
   TryReachableHTTPLogin panosLoginFunc ;;
   .when .never (.scope "func" panosLoginFunc) ;;   -- where the function literal stands in the source
   .ite .err "err != nil" (.ret .keep ["nil", "err"]) .skip ;;
-  (panosHttpPrefixGetLog .read (.lit "get config") ;;
+  (panosHttpPrefixGetLog .read (.lit "get config") panosConfigLits ;;
    .ite .err "err != nil" (.ret .keep ["nil", "err"]) .skip ;;
    .call "parseResponseConfig" ["_"] (
      panosParseResponse ;;
@@ -131,7 +134,7 @@ def nsxSendRequestBody (ρ : Role) (t : Txt) : Sess :=
   .roundTrip ρ t (ρ != .change) ;;
   .ite .err "err != nil" (.ret .keep ["nil", "err"]) .skip ;;
   .defer (op "Close")
-    (.ite .not200 "resp.StatusCode != http.StatusOK"
+    (.ite .not200 "$Do.1.StatusCode != http.StatusOK"
        (op "ReadAll" ["_"] ;; .ret .err ["nil", "_"]) .skip ;;
      op "ReadAll" ["_"] ;;
      .ret .keep ["_"])
@@ -152,7 +155,7 @@ def nsxLoginFunc : Sess :=
   .ite .never "err != nil" (.ret .keep ["err"]) .skip ;;
   (.roundTrip .login (.lit "session create") false ;;
    .ite .err "err != nil" (.ret .keep ["err"]) .skip ;;
-   .ite .not200 "resp.StatusCode != http.StatusOK" (.ret .err ["_"]) .skip) ;;
+   .ite .not200 "$PostForm.1.StatusCode != http.StatusOK" (.ret .err ["_"]) .skip) ;;
   op "Get" ["x-xsrf-token"] ;;
   .ret .nil ["nil"]
 
@@ -164,7 +167,7 @@ def nsxGetRawJSONBody (t : Txt) : Sess :=
      jsonUnmarshal ;;
      .ite .err "err != nil" (.ret .err ["nil", "_"]) .skip) ;;
     .scope "loop" (.when .never (op "Unmarshal" ["_", "_"] ;; .ite .never "err != nil" (.ret .keep ["nil", "err"]) .skip)) ;;
-    .ite (.not .never) "cursor == \"\"" (op "break") .skip) ;;
+    .ite (.not .never) "¬$var != \"\"" (op "break") .skip) ;;
   .ret .nil ["_", "nil"]
 def nsxGetRawJSON (t : Txt) : Sess := .call "getRawJSON" ["_"] (nsxGetRawJSONBody t)
 
@@ -179,7 +182,7 @@ def nsxLoadDevice : Sess :=
    jsonUnmarshal ;;
    .ite .err "err != nil" (.ret .err ["nil", "_"]) .skip) ;;
   .scope "loop" (.when .never (
-    .ite .never "!strings.HasPrefix(result.Id, \"Netspoc\")" .cont .skip ;;
+    .ite .never "¬strings.HasPrefix($range.2.Id, \"Netspoc\")" .cont .skip ;;
     nsxSendRequest .read (.lit "policy") ["GET", "_", "nil"] ;;
     .ite .err "err != nil" (.ret .keep ["nil", "err"]) .skip)) ;;
   nsxGetRawJSON (.lit "services") ;;
